@@ -404,6 +404,15 @@ func (r *result) adjustDevices(devices []*LinuxDevice, plugin string) error {
 		r.reply.adjust.Linux.Devices = append(r.reply.adjust.Linux.Devices, d)
 	}
 
+	// next, apply deletions with no corresponding additions
+	for _, d := range devices {
+		if key, marked := d.IsMarkedForRemoval(); marked {
+			if _, ok := mod[key]; !ok {
+				r.reply.adjust.Linux.Devices = append(r.reply.adjust.Linux.Devices, d)
+			}
+		}
+	}
+
 	// finally, apply additions/modifications to plugin container creation request
 	create.Container.Linux.Devices = append(create.Container.Linux.Devices, add...)
 
